@@ -30,8 +30,10 @@ type File struct {
 	Body    []byte // opaque body when Secs == nil
 	Secs    []*Sec
 	BadSums bool // opaque files may carry arbitrary checksums
-	// LargeForm: an opaque file written in the FFSv3 large form (size field 0xFFFFFF, 64-bit size, 32-byte
-	// header) although it is smaller than 16 MiB; fiano keeps it as it is
+	// LargeForm: a file written in the FFSv3 large form (size field 0xFFFFFF, 64-bit size, 32-byte
+	// header, attribute bit 0) although it is smaller than 16 MiB. fiano keeps an opaque file as it is
+	// and rewrites a file with sections in the small form when it saves. (Sectioned large-form files are
+	// outside the C01 grammar: SpecString returns ok=false for them.)
 	LargeForm bool
 	// BigSecs: the sections add up to 16 MiB or more (the file then has a 32-byte header); set by the
 	// caller, only used for the data alignment computation of the volume layout
@@ -53,6 +55,7 @@ type Vol struct {
 	ExtraBlocks [][2]uint32
 	ExtName   [16]byte
 	ExtData   []byte // extra bytes of the extended header after the 20 fixed ones
+	ExtPre    int    // erased bytes between the header and the extended header (real volumes have them)
 	Files     []*File
 	FreeSpace int // bytes of erased free space after the last file (before rounding to blocks)
 	Length    int // filled by Emit
@@ -152,19 +155,22 @@ func (e *emitter) sec(s *Sec, base int) []byte {
 func (e *emitter) file(f *File, base int) []byte {
 	var body []byte
 	if f.Secs != nil {
+		shl := 24 // header length assumed for the field map of the sections
+		if f.LargeForm {
+			shl = 32
+		}
 		for _, s := range f.Secs {
 			for len(body)%4 != 0 {
 				body = append(body, 0)
 			}
-			// sections inside a large file would need base+32; large files are built opaque
-			body = append(body, e.sec(s, base+24+len(body))...)
+			body = append(body, e.sec(s, base+shl+len(body))...)
 		}
 	} else {
 		body = f.Body
 	}
 	hl := 24
 	size := hl + len(body)
-	large := size >= 0xFFFFFF || (f.LargeForm && f.Secs == nil)
+	large := size >= 0xFFFFFF || f.LargeForm
 	attr := f.Attr &^ 1
 	if large {
 		hl = 32
@@ -241,7 +247,10 @@ func (e *emitter) vol(v *Vol, base int) []byte {
 	out[54] = v.Reserved
 	out[55] = v.Revision
 	if v.ExtHeader {
-		eo := hdrLen
+		for i := 0; i < v.ExtPre; i++ {
+			out = append(out, pol)
+		}
+		eo := hdrLen + v.ExtPre
 		binary.LittleEndian.PutUint16(out[52:], uint16(eo))
 		out = append(out, v.ExtName[:]...)
 		out = binary.LittleEndian.AppendUint32(out, uint32(20+len(v.ExtData)))
@@ -260,7 +269,7 @@ func (e *emitter) vol(v *Vol, base int) []byte {
 		if f.Secs == nil && (24+len(f.Body) >= 0xFFFFFF || f.LargeForm) {
 			hl = 32
 		}
-		if f.Secs != nil && f.BigSecs {
+		if f.Secs != nil && (f.BigSecs || f.LargeForm) {
 			hl = 32
 		}
 		if a := AttrAlign(f.Attr); a != 1 {
@@ -499,6 +508,7 @@ func GenVol(r *Rng, o Opts, depth int) *Vol {
 		v.ExtHeader = true
 		copy(v.ExtName[:], r.Bytes(16))
 		v.ExtData = r.Bytes(r.Pick(0, 4, 12))
+		v.ExtPre = r.Pick(0, 0, 8, 24)
 	}
 	n := r.Pick(0, 1, 1, 2, 3, 5)
 	for i := 0; i < n; i++ {
